@@ -116,7 +116,7 @@ def install(reg, src):
         """Well-formed tree (A5/A7): operators come from the operator tables; Constant values are real scalars."""
         pass
 
-    @reg.contract(f"{M}:_gradient_cached", props=["C02", "C12", "C17"], cases={"node": cases}, group="grad", rank=1)
+    @reg.contract(f"{M}:_gradient_cached", props=["C02", "C12", "C17"], cases={"node": cases}, group="grad", rank=3)
     def _(c):
         sp = Spec(c.ip)
         node = c.choose("node", cases)
@@ -125,7 +125,7 @@ def install(reg, src):
         c.requires(sp.wf(e), name="well-formed scalar expression")
         grad_contract(c, sp, e, wrt)
 
-    @reg.contract(f"{M}:gradient", props=["C02", "C12", "C17"], cases={"node": cases}, group="grad", rank=3)
+    @reg.contract(f"{M}:gradient", props=["C02", "C12", "C17"], cases={"node": cases}, group="grad", rank=4)
     def _(c):
         sp = Spec(c.ip)
         node = c.choose("node", cases)
@@ -135,3 +135,164 @@ def install(reg, src):
         grad_contract(c, sp, e, wrt)
 
     reg.grad_contract = grad_contract
+    install_rules(reg, src)
+
+
+# ======================================================================================= registered vector rules
+def install_rules(reg, src):
+    from .seqtheory import (OCCV, REGALL, VLEN, ELEMV, ELEME, DENV, DVV, register_vector, psum, add_index)
+    from .vecspec import dv_array, FV
+    R_ = f"{M}:_register_vector_gradient_rules."
+    grad_contract = reg.grad_contract
+    VK = ["VectorVariable", "VectorExpression"]
+
+    def setup(c, cls, vec_field="vector", known=None):
+        sp = Spec(c.ip)
+        e = c.arg("expr", T.obj(cls, exact=True, known=known))
+        wrt = c.arg("wrt", T.obj("Variable"))
+        c.requires(sp.wf(e), name="well-formed scalar expression")
+        w = grad_contract(c, sp, e, wrt)
+        return sp, e, wrt, w
+
+    def fix_kind(c, sp, vref, kind):
+        if c.verifying:
+            c.assume(sp.K.is_kind(vref, kind))
+            sp.S.learn_kind(c.ip, vref, kind)
+
+    def acc_inv(sp, e, w, v, arrname, extra_regall=None):
+        """Invariant of an accumulating loop  result = result + term_i  (G1 prefix, G2 prefix, WF)."""
+        r = sp.ref(e)
+        D = dv_array(sp, arrname, r, w)
+        def inv(st):
+            res = st.var("result")
+            regs = REGALL(v, w, sp.E, sp.PV, st.i)
+            if extra_regall is not None:
+                regs = z3.And(regs, extra_regall(st.i))
+            return [z3.Implies(regs, sp.den(res) == sp.S.PSUM(D, st.i)),
+                    z3.Implies(z3.Not(OCCV(v, w, st.i)), sp.is_zero(res)),
+                    sp.wf(res)]
+        return inv
+
+    def isnone(x):
+        from pyvc.values import SOpt
+        if x is None:
+            return z3.BoolVal(True)
+        if isinstance(x, SOpt):
+            return x.isnone
+        return z3.BoolVal(False)
+
+    def lookup_inv(v, w):
+        return lambda st: z3.Not(OCCV(v, w, st.i))
+
+    # ---- LinearCombination
+    @reg.contract(R_ + "gradient_linear_combination", props=["C02", "C03"], cases={"vec": VK}, group="grad", rank=2)
+    def _(c):
+        sp, e, wrt, w = setup(c, "LinearCombination")
+        v = FV(sp, sp.ref(e))
+        fix_kind(c, sp, v, c.choose("vec", VK))
+        if c.verifying:
+            sp.dv(e, w); sp.occ(e, w)
+            c.loop(1, lookup_inv(v, w))
+            c.loop(2, acc_inv(sp, e, w, v, "D_lc"), havoc={"result": T.expr()})
+
+    # ---- VectorSum (always a VectorVariable)
+    @reg.contract(R_ + "gradient_vector_sum", props=["C02", "C03"], group="grad", rank=2)
+    def _(c):
+        sp, e, wrt, w = setup(c, "VectorSum")
+        v = FV(sp, sp.ref(e))
+        fix_kind(c, sp, v, "VectorVariable")
+        if c.verifying:
+            sp.dv(e, w); sp.occ(e, w)
+            c.loop(1, lookup_inv(v, w))
+
+    # ---- VectorExpressionSum
+    @reg.contract(R_ + "gradient_vector_expression_sum", props=["C02", "C03"], group="grad", rank=2)
+    def _(c):
+        sp, e, wrt, w = setup(c, "VectorExpressionSum")
+        v = FV(sp, sp.ref(e), "expression")
+        fix_kind(c, sp, v, "VectorExpression")
+        if c.verifying:
+            sp.dv(e, w); sp.occ(e, w)
+            c.loop(1, acc_inv(sp, e, w, v, "D_vesum"), havoc={"result": T.expr()})
+
+    # ---- L2Norm / L1Norm
+    @reg.contract(R_ + "gradient_l2_norm", props=["C02", "C03"], cases={"vec": VK}, group="grad", rank=2)
+    def _(c):
+        sp, e, wrt, w = setup(c, "L2Norm")
+        v = FV(sp, sp.ref(e))
+        fix_kind(c, sp, v, c.choose("vec", VK))
+        if c.verifying:
+            sp.dv(e, w); sp.occ(e, w)
+            nrm = sp.den(e)
+            c.loop(1, lookup_inv(v, w))
+            r = sp.ref(e)
+            D = dv_array(sp, "D_l2", r, w)
+            def inv(st):
+                res = st.var("result")
+                return [z3.Implies(z3.And(REGALL(v, w, sp.E, sp.PV, st.i), nrm != 0), sp.den(res) == sp.S.PSUM(D, st.i) / nrm),
+                        z3.Implies(z3.Not(OCCV(v, w, st.i)), sp.is_zero(res)), sp.wf(res)]
+            c.loop(2, inv, havoc={"result": T.expr()})
+
+    @reg.contract(R_ + "gradient_l1_norm", props=["C02", "C03"], cases={"vec": VK}, group="grad", rank=2)
+    def _(c):
+        sp, e, wrt, w = setup(c, "L1Norm")
+        v = FV(sp, sp.ref(e))
+        fix_kind(c, sp, v, c.choose("vec", VK))
+        if c.verifying:
+            sp.dv(e, w); sp.occ(e, w)
+            c.loop(1, lookup_inv(v, w))
+            NZ = sym.fn("NZALL", sym.Ref, sym.EnvSort, sym.PVSort, sym.I, sym.B)
+            c.loop(2, acc_inv(sp, e, w, v, "D_l1", extra_regall=lambda i: NZ(v, sp.E, sp.PV, i)), havoc={"result": T.expr()})
+
+    # ---- VectorPowerSum / VectorUnarySum (always VectorVariable)
+    @reg.contract(R_ + "gradient_vector_power_sum", props=["C02", "C03"], group="grad", rank=2)
+    def _(c):
+        sp, e, wrt, w = setup(c, "VectorPowerSum")
+        v = FV(sp, sp.ref(e))
+        fix_kind(c, sp, v, "VectorVariable")
+        if c.verifying:
+            sp.dv(e, w); sp.occ(e, w)
+            c.loop(1, lookup_inv(v, w))
+
+    from pyvc.spec import VEC_UNARY_OPS
+
+    @reg.contract(R_ + "gradient_vector_unary_sum", props=["C02", "C03"], cases={"op": VEC_UNARY_OPS}, group="grad", rank=2)
+    def _(c):
+        op = c.choose("op", VEC_UNARY_OPS)
+        sp, e, wrt, w = setup(c, "VectorUnarySum", known={"op": op} if op else None)
+        v = FV(sp, sp.ref(e))
+        fix_kind(c, sp, v, "VectorVariable")
+        if c.verifying:
+            sp.dv(e, w); sp.occ(e, w)
+            c.loop(1, lookup_inv(v, w))
+
+    # ---- DotProduct
+    @reg.contract(R_ + "gradient_dot_product", props=["C02", "C03"], cases={"left": VK, "right": VK}, group="grad", rank=2)
+    def _(c):
+        sp, e, wrt, w = setup(c, "DotProduct")
+        r = sp.ref(e)
+        l, rr = FV(sp, r, "left"), FV(sp, r, "right")
+        fix_kind(c, sp, l, c.choose("left", VK))
+        fix_kind(c, sp, rr, c.choose("right", VK))
+        if c.verifying:
+            sp.dv(e, w); sp.occ(e, w)
+            lk, rk = c.case["left"], c.case["right"]
+            if lk == "VectorVariable":
+                c.loop(1, lambda st: [isnone(st.var("left_index")), z3.Not(OCCV(l, w, st.i))],
+                       havoc={"left_index": T.opt(T.int_())})
+            if rk == "VectorVariable":
+                c.loop(2, lambda st: [isnone(st.var("right_index")), z3.Not(OCCV(rr, w, st.i))],
+                       havoc={"right_index": T.opt(T.int_())})
+            D = dv_array(sp, "D_dot", r, w)
+            def inv(st):
+                res = st.var("result")
+                return [z3.Implies(z3.And(REGALL(l, w, sp.E, sp.PV, st.i), REGALL(rr, w, sp.E, sp.PV, st.i)),
+                                   sp.den(res) == sp.S.PSUM(D, st.i)),
+                        z3.Implies(z3.Not(z3.Or(OCCV(l, w, st.i), OCCV(rr, w, st.i))), sp.is_zero(res)), sp.wf(res)]
+            c.loop(3, inv, havoc={"result": T.expr()})
+
+    # ---- QuadraticForm: double loop over a numeric matrix; contract stated, body not yet within reach
+    @reg.contract(R_ + "gradient_quadratic_form", props=["C02", "C03"], group="grad", rank=2,
+                  trusted="double accumulation loop over Q + Q.T not yet under proof; exercised by the bounded stand-in")
+    def _(c):
+        setup(c, "QuadraticForm")
